@@ -85,7 +85,8 @@ def trig_rows(phis):
 def params_for(components, w):
     """trig and harm tables for a list of live components at angular frequency w:
     every phase the translators can feed to np.cos/np.sin, and for every periodic source
-    the harmonic coefficients the repo's own fourier_series reports for n = np.round(w/w0)"""
+    the harmonic coefficients the repo's own fourier_series reports (they are judged by C08) for the
+    two integers next to w/w0 — the index itself is chosen by the model / the Spec, not here"""
     from CircuitCalculator.SignalProcessing.periodic_functions import periodic_function, fourier_series
     phis = [0.0]
     harm = []
@@ -98,14 +99,18 @@ def params_for(components, w):
                 w0 = float(v['w']); A = float(v['V' if c.type == 'periodic_voltage_source' else 'I']); phi = float(v['phi'])
                 wt = str(v['wavetype'])
                 fs = fourier_series(periodic_function(wt)(period=2 * np.pi / w0, amplitude=A, phase=phi))
-                n = np.round(w / w0)
-                amp, ph = float(fs.amplitude(n)), float(fs.phase(n))
+                k = (Fraction(w) / Fraction(w0)).__floor__()
             except Exception:
                 continue
-            if not (math.isfinite(amp) and math.isfinite(ph)):
-                continue
-            harm.append([wt, core.q(A), core.q(phi), int(n), core.q(amp), core.q(ph)])
-            phis.append(ph)
+            for n in (k, k + 1):
+                try:
+                    amp, ph = float(fs.amplitude(n)), float(fs.phase(n))
+                except Exception:
+                    continue
+                if not (math.isfinite(amp) and math.isfinite(ph)):
+                    continue
+                harm.append([wt, core.q(A), core.q(phi), int(n), core.q(amp), core.q(ph)])
+                phis.append(ph)
     return trig_rows(phis), harm
 
 # --------------------------------------------------------------------------- live constructors
